@@ -236,7 +236,8 @@ func crun(args []string) {
 	self, _ := os.Executable()
 	var mu sync.Mutex
 	var results []runResult
-	styles := []mg.Style{{CoImport: "co"}, {CoImport: "."}, {CoImport: "yy"}, {CoImport: "co", SeqAlso: true}}
+	styles := []mg.Style{{CoImport: "co"}, {CoImport: "."}, {CoImport: "yy"}, {CoImport: "co", SeqAlso: true},
+		{CoImport: "co", SeqName: "sq"}, {CoImport: ".", SeqName: "."}, {CoImport: "yy", SeqName: "_"}, {CoImport: ".", SeqName: "_"}}
 
 	type okBatch struct {
 		id    string
